@@ -37,8 +37,8 @@ Definition qlk_trailer : list N := Eval vm_compute in ql_line "trailer <<".
 Definition qlk_close : list N := Eval vm_compute in ql_line ">>".
 Definition qlk_startxref : list N := Eval vm_compute in ql_line "startxref".
 Definition qlk_eof : list N := Eval vm_compute in ql_line "%%EOF".
-Definition qlk_objstm : list N := Eval vm_compute in ql_s "/Type /ObjStm".
-Definition qlk_xrefty : list N := Eval vm_compute in ql_s "/Type /XRef".
+Definition qlk_objstm : list N := Eval vm_compute in ql_line "  /Type /ObjStm".
+Definition qlk_xrefty : list N := Eval vm_compute in ql_line "  /Type /XRef".
 Definition qlk_filter : list N := Eval vm_compute in ql_s "/Filter".
 Definition qlk_length : list N := Eval vm_compute in ql_s "  /Length ".
 Definition qlk_0R : list N := Eval vm_compute in ql_line " 0 R".
@@ -115,7 +115,10 @@ Definition ql_length_ref (l : list N) : option N :=
   | None => None
   end.
 
-(* what the text of an object (between its header and endobj / stream) says about it *)
+(* what the text of an object (between its header and endobj / stream) says about it.  The writer puts
+   "/Type /ObjStm" and "/Type /XRef" on a line of their own, at the top level of the dictionary (two spaces);
+   the same words inside a string or as the beginning of a longer name do not make an object a stream of
+   that type. *)
 Record ql_content := { qc_objstm : bool; qc_xref : bool; qc_filter : bool; qc_length_ref : option N }.
 
 (* content lines up to "endobj" or "stream": (summary, which keyword ended it: true = stream, rest, lines used).
@@ -131,8 +134,8 @@ Fixpoint ql_content_scan (ls : list (list N)) (c : ql_content) (n : N)
       else match ql_obj_header l with
            | Some _ => None
            | None =>
-               let c' := {| qc_objstm := qc_objstm c || ql_has qlk_objstm l;
-                            qc_xref := qc_xref c || ql_has qlk_xrefty l;
+               let c' := {| qc_objstm := qc_objstm c || ql_same l qlk_objstm;
+                            qc_xref := qc_xref c || ql_same l qlk_xrefty;
                             qc_filter := qc_filter c || ql_has qlk_filter l;
                             qc_length_ref := match ql_length_ref l with Some m => Some m | None => qc_length_ref c end |} in
                ql_content_scan t c' (n + 1)
